@@ -46,6 +46,18 @@ def _is_int(n):
     )
 
 
+def _polygon_area(polygon):
+    """
+    Area of a (small) spherical polygon. Guards against ``spherical_geometry``
+    occasionally returning the result of an intersection "inverted", in which
+    case ``area()`` is the area of the complement of the polygon (about
+    4 * pi for image footprints).
+
+    """
+    area = np.fabs(polygon.area())
+    return min(area, 4.0 * np.pi - area)
+
+
 class WCSImageCatalog(object):
     """
     A class that holds information pertinent to an image WCS and a source
@@ -333,14 +345,14 @@ class WCSImageCatalog(object):
     def intersection_area(self, wcsim):
         """ Calculate the area of the intersection polygon. """
         if isinstance(wcsim, (WCSImageCatalog, RefCatalog)):
-            return np.fabs(self.intersection(wcsim).area())
+            return _polygon_area(self.intersection(wcsim))
 
         else:
             # this is bug workaround for image groups (multi-unions):
             area = 0.0
             for wim in wcsim:
-                area += np.fabs(
-                    self.polygon.intersection(wim.polygon).area()
+                area += _polygon_area(
+                    self.polygon.intersection(wim.polygon)
                 )
             return area
 
@@ -359,7 +371,7 @@ class WCSImageCatalog(object):
         """
         if isinstance(wcsim, (WCSImageCatalog, RefCatalog)):
             try:
-                return np.fabs(self.intersection(wcsim).area()), 0
+                return _polygon_area(self.intersection(wcsim)), 0
             except MalformedPolygonError:
                 return 0.0, 1
 
@@ -369,8 +381,8 @@ class WCSImageCatalog(object):
             nfailures = 0
             for wim in wcsim:
                 try:
-                    area += np.fabs(
-                        self.polygon.intersection(wim.polygon).area()
+                    area += _polygon_area(
+                        self.polygon.intersection(wim.polygon)
                     )
                 except MalformedPolygonError:
                     nfailures += 1
@@ -1567,14 +1579,14 @@ class RefCatalog(object):
         """ Calculate the area of the intersection polygon.
         """
         if isinstance(wcsim, (WCSImageCatalog, RefCatalog)):
-            return np.fabs(self.intersection(wcsim).area())
+            return _polygon_area(self.intersection(wcsim))
 
         else:
             # this is bug workaround:
             area = 0.0
             for wim in wcsim:
-                area += np.fabs(
-                    self.polygon.intersection(wim.polygon).area()
+                area += _polygon_area(
+                    self.polygon.intersection(wim.polygon)
                 )
             return area
 
@@ -1593,7 +1605,7 @@ class RefCatalog(object):
         """
         if isinstance(wcsim, (WCSImageCatalog, RefCatalog)):
             try:
-                return np.fabs(self.intersection(wcsim).area()), 0
+                return _polygon_area(self.intersection(wcsim)), 0
             except MalformedPolygonError:
                 return 0.0, 1
 
@@ -1603,8 +1615,8 @@ class RefCatalog(object):
             nfailures = 0
             for wim in wcsim:
                 try:
-                    area += np.fabs(
-                        self.polygon.intersection(wim.polygon).area()
+                    area += _polygon_area(
+                        self.polygon.intersection(wim.polygon)
                     )
                 except MalformedPolygonError:
                     nfailures += 1
